@@ -226,6 +226,19 @@ class SimPopen(object):
         return self.returncode
 
     def wait(self, timeout=None):
+        """blocks until the process has ended: it was terminated, it died, or it obeyed (exit) -
+        unless its profile says it is stuck and never leaves by itself"""
+        k = self.world.kernel
+        if k.is_dead():
+            return self.returncode
+
+        def ended():
+            if self.returncode is not None or self.solver.dead:
+                return True
+            return self.solver.exited and not self.profile.get("stuck_at_exit")
+        k.block_until(ended, "proc.wait", timeout)
+        if self.returncode is None and ended():
+            self.returncode = 0 if self.solver.exited else 1
         return self.returncode
 
     def terminate(self):
